@@ -94,12 +94,19 @@ func H_C12_filter() {
 // concurrent creation is race-free) and needs no synchronisation.
 func H_C12_create() {
 	expr := exprsC12[vChoose(len(exprsC12))]
+	var opts []Option
+	switch vChoose(3) {
+	case 1: // a budget that suffices, and one that does not: the counter is per parse
+		opts = []Option{WithMaxExpressions(1 << 30)}
+	case 2:
+		opts = []Option{WithMaxExpressions(40), WithTagName("alt")}
+	}
 	vMonitorStart()
-	ev1, e1 := CreateEvaluator(expr)
+	ev1, e1 := CreateEvaluator(expr, opts...)
 	w := vMonitorStop()
 	vAssert(len(w) == 0, "monitor: CreateEvaluator writes to package-level state: "+expr)
-	ev2, e2 := CreateEvaluator(expr)
+	ev2, e2 := CreateEvaluator(expr, opts...)
 	vAssert((e1 == nil) == (e2 == nil) && (ev1 == nil) == (ev2 == nil), "creating twice gives the same result")
-	vConcurrent(func() { CreateEvaluator(expr) }, 4)
+	vConcurrent(func() { CreateEvaluator(expr, opts...) }, 4)
 	vCover("reached")
 }
